@@ -354,7 +354,11 @@ func Mapping(nested bool) mapping.IndexMapping {
 	}
 	dm.AddFieldMappingsAt("ver", kw())
 	dm.AddFieldMappingsAt("kw", kw())
-	dm.AddFieldMappingsAt("tags", kw())
+	// tags carries no persisted doc values: sorts, facets and doc-value visits on it go through scorch's un-inverting
+	// cache (cachedDocs), which is shared by every snapshot of a segment
+	tg := kw()
+	tg.DocValues = false
+	dm.AddFieldMappingsAt("tags", tg)
 	dm.AddFieldMappingsAt("body", tx())
 	dm.AddFieldMappingsAt("titles", tx())
 	dm.AddFieldMappingsAt("num", nm())
